@@ -19,6 +19,7 @@ import (
 type unit struct {
 	Fn      string   // "<pkg-relative path>.<short name>"
 	Include []string // regexps on the obligation name after "<fn>/"; empty = all
+	Exclude []string // regexps removing obligations again
 	Conc    bool     // concurrency mode (lock invariants)
 }
 
@@ -153,6 +154,11 @@ func cmdCheck(args []string) {
 				for _, re := range incs {
 					if re.MatchString(suffix) {
 						keep = true
+					}
+				}
+				for _, p := range un.Exclude {
+					if regexp.MustCompile(p).MatchString(suffix) {
+						keep = false
 					}
 				}
 				if keep {
